@@ -108,3 +108,10 @@ Lemma demo_throw_leaves_ip : forall lm,
   let g := demo_throw_genome lm in
   l_index (ip (snd (run_ex true g demo_ex1 (init_state g)))) = 1.
 Proof. intro lm. vm_compute. reflexivity. Qed.
+
+Lemma demo_untaken_not_evaluated : forall lm,
+  let g := demo_genome lm in
+  let st := snd (run_ex true g demo_ex2 (init_state g)) in
+  e_valid (cache st {| l_index := 3; l_cat := 1 |}) = false /\
+  e_valid (cache st {| l_index := 4; l_cat := 1 |}) = true.
+Proof. intro lm. vm_compute. split; reflexivity. Qed.
